@@ -73,7 +73,7 @@ PROPS = {
                 assumptions=AS_CONV + [
                     'NOT under contract (named, unproved): the meaning of "the same trigger set" in the repeat-only pass (FromSet: sort + HashMap; only its frame is proved: triggers/outputs untouched, only identity mappings appended) and therefore the repeat modes of the FINAL layout (convert_single / convert_row ensure the repeat mode and absorbing list of every mapping they produce, before that pass), and the equivalence of spellings (parser, out of reach)',
                     'an alias name that occurs twice among the trigger modifiers is resolved on the output side to its LAST trigger-side occurrence (what the code does; the statement does not say)'],
-                witness='loader', extras=['tables_enum']),
+                witness='loader', extras=['tables_enum', 'programs_bounded']),
     'C17': dict(units=['udev'], level='proof', extras=['udev_enum'], witness=None,
                 trusted_base=TB_COMMON[:2] + [
                     'the specification of systemd\'s ExecStart parsing in /verif/spec/sd.rs (written from systemd.syntax(7) / systemd.service(5): word splitting at unquoted whitespace, quotes, C-style escapes, lone `;`, %% and $$); octal and \\U escapes are treated as not accepted, which only makes the oracle stricter',
